@@ -27,13 +27,15 @@ MANIFEST = {
             "object unchanged, its answer is the fresh-object answer after ANY history (answer_history_independent), ACS(shape, seed) "
             "after any history ⊆ mask(shape, seed) after any other history on any object (acs_subset_mask_any_history), the selected "
             "pair is the same for both requests — for every seed, falsy ones included; witnesses that `rng.seed(seed or None)` and an "
-            "ACS memo keyed by the shape each break it. Tie: 28 translated kernels/tables (22 kernels, 6 tables) regenerated from /repo on every run — pad, "
+            "ACS memo keyed by the shape each break it. Tie: 29 translated kernels/tables (22 kernels, 7 tables) regenerated from /repo on every run — pad, "
             "slice bounds, zero-pad start/stop, num_low_freqs expressions incl. the float operations and comparisons, Magic budget/cap, "
             "constructor guards, disc predicates; structural tables with decided predicates: temp_seed hands the seed to rng.seed "
             "unchanged, no instance/class/module state written and no memoising decorator / mutable default in the 27 functions reachable "
             "from mask_func or __call__, __call__ = guards + forward, seed parameter never rebound and choose_acceleration before the "
             "return_acs return, crop before disc in poisson(), CreateSamplingMask passes the same shape/seed to both requests, "
-            "integerize_seed returns ints unchanged, BaseMaskFunc.__init__ stores the configured sequences as given; the branch conditions "
+            "integerize_seed returns ints unchanged, the geometry helpers build their index grids in the default 64-bit signed type and "
+            "cast nothing to a narrow / unsigned integer (gridDtypes, with the witness disc_uint16_wraps_violates), "
+            "BaseMaskFunc.__init__ stores the configured sequences as given; the branch conditions "
             "of the glue are translated too, `isinstance(x, T)` / `type(x) is T` as membership of a type-code parameter `ty`, and the "
             "bridge lemmas hold for EVERY `ty` (the width depends on the value only), so a value test turned into a type test breaks "
             "them; the tables select the machine the theorems are about (code_machine, "
@@ -43,7 +45,10 @@ MANIFEST = {
             "Random/Equispaced/Magic): every centre fraction / acceleration as int, float, float-valued int, np.int64/int32, "
             "np.float64/float32, 0-d array, torch scalar; containers list/tuple/ndarray/tensor; shape tuple/list/torch.Size/ndarray; "
             "mode enum/lower/upper string — an accepted form must give the canonical ACS (oracle) and the model's value-based width "
-            "(num_low_value correspondence); forms the code rejects with an exception are counted, not judged.",
+            "(num_low_value correspondence); forms the code rejects with an exception are counted, not judged; large-size ladder "
+            "(368x368, 512x246, 640x368, 1024x64, 512x512, 372x640): center_mask_func rows and centered_disk_mask probe cells "
+            "(corners, rim, every would-be wrap-around cell modulo 2^8/2^15/2^16/2^31) against the Lean model, whole grids and the "
+            "CIRCUS disc search against exact int64 arithmetic in the oracle.",
     "note": "Trusted: Lean kernel (+propext, Classical.choice, Quot.sound; decide +kernel for three 192/256-cell witnesses), AST "
             "translator (incl. the reused C05 walker), recording RandomState, worker subprocesses. Still computed by the harness: "
             "int(sqrt(rows*cols*cf/pi)) and the CIRCUS radii 1, 1.1, … (floor of float32 radius²); the older generator-level lines "
@@ -86,7 +91,8 @@ RULE = ("kernel cases: every (N, L) with N <= 40 (quick) / 80 (thorough) incl. L
         "numpy/file name, falsy seeds repeated (oracle: 2 per generator quick, checked against fresh-object references; model: 1 per "
         "generator through the Lean object machine); site cases: CreateSamplingMask(return_acs=True) on 5 samples, explicit mask "
         "shapes incl. None entries; form cases: one canonical configuration (1-2 pairs, products kept clear of float32 rounding ties) "
-        "per class x ~27 forms, quick 17 (oracle) + 12 (model) ladders; non-trivial = 1 <= L < N (kernels) / a returned ACS with at least one sample (generators) / "
+        "per class x ~27 forms, quick 17 (oracle) + 12 (model) ladders; large cases: 48 center_mask rows (N up to 1024), 12 disc probe "
+        "lines (~900 cells each) and 18 whole-grid discs + 2 CIRCUS searches per quick run; non-trivial = 1 <= L < N (kernels) / a returned ACS with at least one sample (generators) / "
         ">= 2 answered ACS requests (histories); distinct = distinct protocol line / spec")
 PENDING_FINDINGS: list[str] = []
 EXTRA_LEAN_MODULES = ['DirectVerif.Lemmas.C04List', 'DirectVerif.Lemmas.C06Assemble', 'DirectVerif.Lemmas.C06Seed',
